@@ -280,8 +280,8 @@ theorem IdInv_ackPacket {o : Outbound} {id : Nat} {k : AckKind} (h : o.IdInv) :
       exact hn.2.2 id (by rw [← hpe.1]; exact List.mem_map_of_mem he) id hrel rfl
   · exact ⟨h, by simp, rfl⟩
 
-theorem IdInv_queueRelease {o o' : Outbound} {id rc : Nat} (h : o.IdInv) (hfresh : id ∉ o.usedIds) (hnz : id ≠ 0)
-    (hq : o.queueRelease id rc = some o') : o'.IdInv := by
+theorem IdInv_queueRelease {o o' : Outbound} {id rc ps : Nat} (h : o.IdInv) (hfresh : id ∉ o.usedIds) (hnz : id ≠ 0)
+    (hq : o.queueRelease id rc ps = some o') : o'.IdInv := by
   unfold queueRelease at hq
   split at hq
   · simp at hq
